@@ -22,7 +22,9 @@
 (*           [k:"agg",op,res,tgt,body,outer] [k:"range",res,a]             *)
 (* values  : integers, strings, <<"nil">>, <<"rec",v..>>, <<"adt",b,v..>>  *)
 (***************************************************************************)
-EXTENDS Integers, Sequences, FiniteSets, TLC, Functors
+EXTENDS Integers, Sequences, FiniteSets, TLC, Functors, DatalogData
+\* DatalogData (generated per run into the TLA-Library path) defines Programs == <<...>> as a plain definition:
+\* TLC evaluates such a definition once, whereas `CONSTANT X <- Def` is re-evaluated on every reference.
 
 NilV == <<"nil">>
 EmptyEnv == [x \in {} |-> 0]
@@ -256,7 +258,6 @@ InitI(P, edb) == [r \in RelNames(P) |->
                     ELSE {}]
 
 \* ---- the evaluation as a state machine -----------------------------------
-CONSTANT Programs
 VARIABLES pi,      \* index of the program
           edb,     \* the input database
           I,       \* current interpretation: relation name |-> set of tuples
